@@ -1417,6 +1417,23 @@ impl VisitMut for Pass {
             }
             _ => {}
         }
+        // X18 (pre-order): `&E[..]` -> `E.as_slice()` (the whole of a Vec as a slice)
+        let mut full: Option<Expr> = None;
+        if let Expr::Reference(r) = &*e {
+            if r.mutability.is_none() {
+                if let Expr::Index(ix) = &*r.expr {
+                    if let Expr::Range(rg) = &*ix.index {
+                        if rg.start.is_none() && rg.end.is_none() {
+                            full = Some((*ix.expr).clone());
+                        }
+                    }
+                }
+            }
+        }
+        if let Some(base) = full {
+            *e = parse_quote!(#base.as_slice());
+            self.rw.note("X18", line);
+        }
         // pre-order handling of loops and closures so ordinals follow source order
         match e {
             Expr::ForLoop(f) => {
